@@ -43,15 +43,15 @@ type C30Scn struct {
 	CA          int         `json:"ca"`     // 0 none, 1 the CA file, 2 a missing file, 3 a blank file, 4 a file that holds no certificate
 	Suites      int         `json:"suites"` // 0 as given by Default/none, 1 empty (Go defaults), 2 with CBC-SHA suites added
 	Clients     []C30Client `json:"clients"`
-	Rotate      bool        `json:"rotate"`            // replace the certificate files and perform the documented reload step
-	UpdateFirst bool        `json:"update_first"`      // an unrelated UpdatePolicyOptions before the rotation
+	Rotate      bool        `json:"rotate"`       // replace the certificate files and perform the documented reload step
+	UpdateFirst bool        `json:"update_first"` // an unrelated UpdatePolicyOptions before the rotation
 	// HalfFirst: the rotation replaces certificate AND key, in two steps with a reload after each: the first
 	// reload meets the new certificate with the old key and fails (the old certificate stays in service), the
 	// second one, after the key has been replaced too, is the documented step
-	HalfFirst   bool        `json:"half_first,omitempty"`
-	EarlyReload bool        `json:"early_reload,omitempty"` // another ReloadCertificates call, started before the files are replaced, overlaps with the rotation
-	Restart     bool        `json:"restart,omitempty"` // between the two halves: stop, replace the CA file (same path) by another CA, start a new server instance
-	Sched       SchedCfg    `json:"sched"`
+	HalfFirst   bool     `json:"half_first,omitempty"`
+	EarlyReload bool     `json:"early_reload,omitempty"` // another ReloadCertificates call, started before the files are replaced, overlaps with the rotation
+	Restart     bool     `json:"restart,omitempty"`      // between the two halves: stop, replace the CA file (same path) by another CA, start a new server instance
+	Sched       SchedCfg `json:"sched"`
 }
 
 type c30PKIT struct {
@@ -59,7 +59,7 @@ type c30PKIT struct {
 	srvADER, srvBDER                                []byte
 	// a server certificate for ANOTHER key pair: a rotation that replaces certificate and key in two steps
 	srvCPEM, srvCDER, leafKey2PEM []byte
-	cliSelf, cliGood, cliForeign                    tls.Certificate
+	cliSelf, cliGood, cliForeign  tls.Certificate
 }
 
 var (
